@@ -23,7 +23,7 @@ props = {}
 
 # ---------------- C01 / C08: parser ----------------
 parser_quick = [J("parser","VH_holes",1), J("parser","VH_holes",2), J("parser","VH_free",1), J("parser","VH_free",2)] + \
-               [J("parser","VH_template",w) for w in (0,2,3,4,5,6,7,8,9,10,11,12,13,14,15,16,17,18,19,20)] + [J("parser","VH_reserved")]
+               [J("parser","VH_template",w) for w in (0,2,3,4,5,6,7,8,9,10,11,12,13,14,15,16,17,18,19,20,21,22)] + [J("parser","VH_reserved")]
 parser_quick += [J("parser","VH_mutate",pr,0) for pr in range(14)] + [J("parser","VH_ops",3)]
 parser_thorough = parser_quick + [J("parser","VH_mutate",pr,m) for pr in range(14) for m in (1,2)] + [J("parser","VH_free",3), J("parser","VH_template",1), J("parser","VH_holes",3, max_instrs=6000000), J("parser","VH_ops",4, max_instrs=30000000)]
 props["C01"] = dict(title="Accepted programs get the syntax tree the documented grammar prescribes",
@@ -61,13 +61,13 @@ order_faulty = [J(I,"VH_order",w,0,2) for w in (0,3,4,5,6,7,14)]
 props["C04"] = dict(title="Calls bind arguments by position, return exactly; closures own captured state",
   bounds="function bodies { S ; tail } with S every statement shape of nesting depth 1 (thorough 2) over probe, print, break, continue, return, if, if/else, while, for, block; 3 (thorough up to 5) outcomes per probe (loops of more iterations are outside); call node with 3 argument probes of every kind; closure programs of VH_closure (counter factory, two closures over one variable, recursion to depth 3, every interleaving of 3 calls; VH_reentrant: a 2-3 parameter call site re-entered through any argument position to depth 1-3, twice; VH_loopClosure: closures made by 3 iterations of a while/for loop, declared directly in the body or in a bare block / if-block / inner loop inside it, called after the loop in any order)",
   assumptions=["oracle: reference semantics refExec (DESIGN E.3); a break/continue escaping a function body is unspecified"]+A_PROBE+A_COMMON[:1],
-  quick=[stmt_quick[1], J(I,"VH_order",3,0,0), J(I,"VH_closure",0), J(I,"VH_closure",1), J(I,"VH_closure",2), J(I,"VH_arity"), J(I,"VH_scopeFn",0), J(I,"VH_reentrant"), J(I,"VH_loopClosure"), J(I,"VH_factoryPlacement"), J(I,"VH_manyCalls",140000, loop_fuel=2000000, max_instrs=2000000000)],
-  thorough=[s for s in stmt_thorough if s["args"][0]==1]+[J(I,"VH_order",3,0,0), J(I,"VH_order",3,1,0), J(I,"VH_closure",0), J(I,"VH_closure",1), J(I,"VH_closure",2), J(I,"VH_arity"), J(I,"VH_reentrant"), J(I,"VH_loopClosure"), J(I,"VH_factoryPlacement"), J(I,"VH_manyCalls",300000, loop_fuel=2000000, max_instrs=2000000000)],
+  quick=[stmt_quick[1], J(I,"VH_order",3,0,0), J(I,"VH_closure",0), J(I,"VH_closure",1), J(I,"VH_closure",2), J(I,"VH_arity"), J(I,"VH_scopeFn",0), J(I,"VH_reentrant"), J(I,"VH_loopClosure"), J(I,"VH_factoryPlacement"), J(I,"VH_manyCalls",140000, loop_fuel=2000000, max_instrs=2000000000), J(I,"VH_emptyArm",1,3, loop_fuel=400)]+[J(I,"VH_scopeLate",c, loop_fuel=300) for c in (0,1,2)],
+  thorough=[s for s in stmt_thorough if s["args"][0]==1]+[J(I,"VH_order",3,0,0), J(I,"VH_order",3,1,0), J(I,"VH_closure",0), J(I,"VH_closure",1), J(I,"VH_closure",2), J(I,"VH_arity"), J(I,"VH_reentrant"), J(I,"VH_loopClosure"), J(I,"VH_factoryPlacement"), J(I,"VH_manyCalls",300000, loop_fuel=2000000, max_instrs=2000000000), J(I,"VH_emptyArm",1,3, loop_fuel=400)]+[J(I,"VH_scopeLate",c, loop_fuel=300) for c in (0,1,2)],
   only_ids="^(evaluation-sequence-as-reference|evaluations-match-reference|all-reference-events-happened|print-matches-reference|call-.*|failed-call-yields-nil|argument-.*|arguments-arrive-by-position|callee-entered-.*|closure-.*|arity-.*|recursion-.*|read-.*|diagnostic-expected-by-the-scope-model|every-expected-read-happened|scope-error-reported)$")
 props["C05"] = dict(title="Branches and loops run exactly the arms and iterations their conditions dictate",
   bounds="top-level programs { S ; tail } with S every statement shape of nesting depth 1 (thorough 2); 3 (thorough up to 5) outcomes per probe: loops of more iterations are outside the bound (cut and counted)",
   assumptions=["oracle: reference semantics refExec (DESIGN E.3)"]+A_PROBE+A_COMMON[:1],
-  quick=[stmt_quick[0], J(I,"VH_conditions",0), J(I,"VH_conditions",1)], thorough=[s for s in stmt_thorough if s["args"][0]==0]+[J(I,"VH_conditions",0), J(I,"VH_conditions",1)],
+  quick=[stmt_quick[0], J(I,"VH_conditions",0), J(I,"VH_conditions",1), J(I,"VH_emptyArm",0,3, loop_fuel=400)], thorough=[s for s in stmt_thorough if s["args"][0]==0]+[J(I,"VH_conditions",0), J(I,"VH_conditions",1), J(I,"VH_emptyArm",0,3, loop_fuel=400), J(I,"VH_emptyArm",0,5, loop_fuel=400)],
   only_ids="^(evaluation-sequence-as-reference|evaluations-match-reference|all-reference-events-happened|print-matches-reference|stray-signal-diagnosed-after-all-evaluations|missing-diagnostic|diagnostic-only-when-expected|truthy-.*|falsy-.*|cond-.*)$")
 props["C06"] = dict(title="A runtime error stops the program: true cause, right line, nothing afterwards",
   bounds="as C04/C05 (every statement shape, failing probe at every position and invocation), every expression node kind with probe operands of every value kind, exit status through the real main on concrete faulty scripts; diagnostics that quote user text holding a '%' (VH_diagQuoted); non-termination after a diagnostic is detected by loop fuel and confirmed by a native run that does not finish",
@@ -102,13 +102,13 @@ obj_ids13 = "initialisers-run-in-source-order|every-initialiser-ran-once|same-li
 props["C12"] = dict(title="Objects are shared key->value maps with consistent read, write, delete, listing",
   bounds="object literals with 0-3 distinct keys parsed by the real parser, then histories of 1 (thorough 2) operations (read/write/delete of present and absent keys through either alias, key and value listing, print, property access on a non-object); every Go map range takes a fresh iteration order (rotations of insertion order; thorough: all permutations)",
   assumptions=["oracle: map model of DESIGN E.7", "A-maporder: counterexamples are searched over the orders the go1.23 runtime produces for small maps (rotations); thorough additionally explores every permutation"]+A_COMMON[:3],
-  quick=[J(I,"VH_object",k,1) for k in (0,1,2,3)]+[J(I,"VH_printShared",w) for w in (1,2,3,4)]+[J(I,"VH_objectBig",9, map_orders=2), J(I,"VH_objectBig",16, map_orders=2)], thorough=[J(I,"VH_objectBig",n, map_orders=3) for n in (7,8,9,16,33)]+[J(I,"VH_printShared",w) for w in (1,2,3,4)]+[J(I,"VH_object",k,s, all_perms=True) for k in (0,1,2,3) for s in (1,2)],
+  quick=[J(I,"VH_object",k,1) for k in (0,1,2,3)]+[J(I,"VH_printShared",w) for w in (1,2,3,4)]+[J(I,"VH_objectBig",9, map_orders=2), J(I,"VH_objectBig",16, map_orders=2), J(I,"VH_order",7,0,0), J(I,"VH_equivKeys")], thorough=[J(I,"VH_order",7,0,0), J(I,"VH_order",7,1,0), J(I,"VH_equivKeys")]+[J(I,"VH_objectBig",n, map_orders=3) for n in (7,8,9,16,33)]+[J(I,"VH_printShared",w) for w in (1,2,3,4)]+[J(I,"VH_object",k,s, all_perms=True) for k in (0,1,2,3) for s in (1,2)],
   skip_ids="^("+obj_ids13+")$")
 props["C13"] = dict(title="Execution is deterministic",
   bounds="every range-over-map site reachable in the repo (object literal evaluation, key listing, value listing, ObjectLiteral.String in the missing-property diagnostic) with 2-3 keys (also with one name written twice: VH_dupKeys), each loop under an independent iteration order; two reads of a CRLF stdin under every way the operating system may cut the bytes into reads, when the line splitting is the repository's own code (VH_inputCRLF); plus the static inventory of nondeterminism sources (any call outside the modelled stubs makes the run inconclusive)",
   assumptions=["A-maporder as C12", "the clock built-in is excluded by the property", "other sources (goroutines, select, rand, pointer formatting) are excluded by inventory: the executor refuses any callee without a model"],
-  quick=[J(I,"VH_object",k,1) for k in (2,3)]+[J(I,"VH_diagText",2), J(I,"VH_diagText",3), J(I,"VH_dupKeys",2), J(I,"VH_dupKeys",3), J("main","VH_inputCRLF",2), J(I,"VH_constInit",2), J(I,"VH_constInit",3)],
-  thorough=[J(I,"VH_constInit",2, all_perms=True), J(I,"VH_constInit",3, all_perms=True), J("main","VH_inputCRLF",2), J(I,"VH_dupKeys",2, all_perms=True), J(I,"VH_dupKeys",3, all_perms=True)]+[J(I,"VH_object",k,s, all_perms=True) for k in (2,3) for s in (1,2)]+[J(I,"VH_diagText",2, all_perms=True), J(I,"VH_diagText",3, all_perms=True)],
+  quick=[J(I,"VH_object",k,1) for k in (2,3)]+[J(I,"VH_diagText",2), J(I,"VH_diagText",3), J(I,"VH_dupKeys",2), J(I,"VH_dupKeys",3), J("main","VH_inputCRLF",2), J(I,"VH_constInit",2), J(I,"VH_constInit",3), J(I,"VH_equivKeys")],
+  thorough=[J(I,"VH_equivKeys", all_perms=True)]+[J(I,"VH_constInit",2, all_perms=True), J(I,"VH_constInit",3, all_perms=True), J("main","VH_inputCRLF",2), J(I,"VH_dupKeys",2, all_perms=True), J(I,"VH_dupKeys",3, all_perms=True)]+[J(I,"VH_object",k,s, all_perms=True) for k in (2,3) for s in (1,2)]+[J(I,"VH_diagText",2, all_perms=True), J(I,"VH_diagText",3, all_perms=True)],
   only_ids="^("+obj_ids13+")$")
 
 # ---------------- C14 ----------------
@@ -117,14 +117,14 @@ props["C14"] = dict(title="Operands are evaluated once, left to right; logic sho
   assumptions=["oracle: truthiness table of DESIGN E.5", "object-literal initialiser order is C13"]+A_PROBE+A_VALUES,
   quick=[J(I,"VH_truthy",0), J(I,"VH_truthy",1)]+order_all+[J(I,"VH_logical",s,o) for s in (0,1) for o in (0,1)]+[J(I,"VH_conditions",0)]+[J(I,"VH_orderIdent",w) for w in range(3)],
   thorough=[J(I,"VH_truthy",s) for s in (0,1,2)]+order_all+[J(I,"VH_order",w,1,0) for w in range(15)]+[J(I,"VH_logical",s,o) for s in (0,1) for o in (0,1)]+[J(I,"VH_conditions",0), J(I,"VH_conditions",1)],
-  only_ids="^(operand-order-.*|truthiness|operand-evaluated-in-reading-order-once|every-operand-evaluated|callee-entered-after-all-arguments|callee-entered-exactly-once|left-evaluated-once|right-.*|result-is-.*|logical-.*|truthy-.*|falsy-.*|node-returns-a-signal)$")
+  only_ids="^(every-operand-evaluated-before-the-operation-fails|operand-order-.*|truthiness|operand-evaluated-in-reading-order-once|every-operand-evaluated|callee-entered-after-all-arguments|callee-entered-exactly-once|left-evaluated-once|right-.*|result-is-.*|logical-.*|truthy-.*|falsy-.*|node-returns-a-signal)$")
 
 # ---------------- C15 / C16 ----------------
 props["C15"] = dict(title="print writes each value faithfully, newline-terminated, consistent with +",
   bounds="the real PrintStatement on every value kind (payload size 0-1, thorough 2), strings nested in arrays and objects (1-2 code points below U+0300, where NFC is the identity; and four concrete texts NFC rewrites — composing accent, composition-excluded U+09DF/U+09DC, two-part vowel sign — as printed string, array element, property value and property name: the whole line must be its own NFC), and the text + splices for numbers and strings (C02's concatenation obligations)",
   assumptions=["NOT decided: that fmt's %v of a float64 is the shortest round-trip numeral with no exponent below 10^6 (fmtF is uninterpreted) and that norm.NFC is NFC (uninterpreted above U+02FF)", "containers: format-agnostic — the text must contain every element / key and value, in order"]+A_VALUES+A_COMMON[:2],
-  quick=[J(I,"VH_print",0,0), J(I,"VH_print",1,0), J(I,"VH_printNested",1,0), J(I,"VH_printNested",1,1), J(I,"VH_printNested",0,0), J(I,"VH_printShared",0), J(I,"VH_printShared",1), J(I,"VH_printShared",2), J(I,"VH_printShared",3), J(I,"VH_printShared",4), J(I,"VH_binary",1,1,0)]+[J(I,"VH_printNFC",w) for w in range(5)]+[J(I,"VH_printVsConcat",p) for p in range(19)],
-  thorough=[J(I,"VH_print",s,r) for s in (0,1,2) for r in (0,1)]+[J(I,"VH_printNested",n,o) for n in (0,1,2) for o in (0,1)]+[J(I,"VH_printShared",w) for w in range(5)]+[J(I,"VH_printNFC",w) for w in range(5)]+[J(I,"VH_printVsConcat",p) for p in range(19)]+[J(I,"VH_binary",a,b,0) for (a,b) in ((0,0),(1,1),(2,1))],
+  quick=[J(I,"VH_print",0,0), J(I,"VH_print",1,0), J(I,"VH_printNested",1,0), J(I,"VH_printNested",1,1), J(I,"VH_printNested",0,0), J(I,"VH_printShared",0), J(I,"VH_printShared",1), J(I,"VH_printShared",2), J(I,"VH_printShared",3), J(I,"VH_printShared",4), J(I,"VH_binary",1,1,0)]+[J(I,"VH_printNFC",w) for w in range(5)]+[J(I,"VH_printVsConcat",p) for p in range(19)]+[J(I,"VH_printLong",n) for n in (10,4093,4094,4095,4096,8191)],
+  thorough=[J(I,"VH_print",s,r) for s in (0,1,2) for r in (0,1)]+[J(I,"VH_printNested",n,o) for n in (0,1,2) for o in (0,1)]+[J(I,"VH_printShared",w) for w in range(5)]+[J(I,"VH_printNFC",w) for w in range(5)]+[J(I,"VH_printVsConcat",p) for p in range(19)]+[J(I,"VH_printLong",n) for n in (10,4093,4094,4095,4096,4097,8190,8191,8192,12287,70000)]+[J(I,"VH_binary",a,b,0) for (a,b) in ((0,0),(1,1),(2,1))],
   only_ids="^(print-.*|printed-.*|nested-.*|bin-string-result|bin-result-is-string)$")
 props["C16"] = dict(title="A value behaves the same however it was produced",
   bounds="11 consumers (both operand positions of every binary operator, unary operators, condition, print alone / inside an array, array index, math built-in argument, object property round trip, delete key, self-equality) run on two host representations of the same value: string vs rune slice (1 code point; thorough 0-2), float64 vs int64, float64 vs int (|n| <= 2^53), and the result of each of 16 producers (every math built-in, length, bitwise/shift/not, addition, modulo, concatenation, run on symbolic arguments) vs the canonical float64/string of the same value; representation pairs come from the reachable-kind inventory and from what the producers actually yield; plus 6 node kinds evaluated with operands as computed expressions vs as literal nodes, so the check is as wide as the tree's representations",
@@ -136,8 +136,8 @@ props["C16"] = dict(title="A value behaves the same however it was produced",
 props["C17"] = dict(title="Math built-ins compute their mathematical function; misuse is a reported error",
   bounds="each of the 9 math built-ins, the clock and the length built-in, resolved by its documented name in the real global scope and invoked through the real Call case with 0-3 (thorough 4) arguments of every value kind (unconstrained doubles); pow with six whole exponents over base points/intervals where a product-then-reciprocal or any other hand-made power differs from the platform's (VH_powWhole)",
   assumptions=["abs, sqrt, round are exact (fp.abs, fp.sqrt RNE, roundToIntegral RNA); pow/sin/cos/tan are identities on uninterpreted stubs (accuracy of the platform's math library is NOT decided)", "string arguments are coerced by the code and not mentioned by the documentation: not asserted", "NaN arguments to min/max are excluded", "A-time: the clock is an arbitrary int64"]+A_VALUES+A_COMMON[:3],
-  quick=[J(I,"VH_math",w,n) for w in range(11) for n in (0,1,2,3) if not (w in (7,8) and n==3)]+[J(I,"VH_powWhole",k) for k in range(6)],
-  thorough=[J(I,"VH_powWhole",k) for k in range(6)]+[J(I,"VH_math",w,n) for w in range(11) for n in (0,1,2,3,4) if not (w in (7,8) and n==4)])
+  quick=[J(I,"VH_math",w,n) for w in range(11) for n in (0,1,2,3) if not (w in (7,8) and n==3)]+[J(I,"VH_powWhole",k) for k in range(6)]+[J(I,"VH_clock")],
+  thorough=[J(I,"VH_clock")]+[J(I,"VH_powWhole",k) for k in range(6)]+[J(I,"VH_math",w,n) for w in range(11) for n in (0,1,2,3,4) if not (w in (7,8) and n==4)])
 
 # ---------------- C18 ----------------
 props["C18"] = dict(title="Meaning is invariant under layout, digit script, synonyms, renaming, parentheses",
@@ -156,7 +156,7 @@ props["C19"] = dict(title="Exit status and output streams classify every run cor
 props["C20"] = dict(title="In the REPL a failed line never affects later lines; expression values echo",
   bounds="the real runPrompt/run on sessions of 1-2 (thorough 3) lines drawn from a pool of 8 representative lines (bare expression, print, lexical error, syntax error, two runtime errors, declaration, built-in call): plus sessions that repeat one line 12 (thorough 40) times before any other line (state building up over a session); plus sessions whose first line is 4095-4097 or 70000 bytes long (thorough: around 8192 and 65536, and 140000) followed by two lines (VH_replLong: buffer boundaries of the line reader); the session's stdout/stderr must be the concatenation of the responses each line gives as the only line of a fresh process (package-level state restored to its post-initialisation value)",
   assumptions=["A-stdin: bufio.Scanner delivers one line per Scan unless the line reaches its token limit (64 KB unless Buffer raises it), after which Scan reports false; bufio.Reader.ReadLine hands out pieces of at most 4096 bytes", "lines that call the input built-in are outside the property's pool"],
-  quick=[J("main","VH_repl",1), J("main","VH_repl",2), J("main","VH_replEcho"), J("main","VH_replRepeat",12, max_instrs=30000000)]+[J("main","VH_replLong",n, loop_fuel=200000, max_instrs=400000000) for n in (4095,4096,4097,70000)], thorough=[J("main","VH_replLong",n, loop_fuel=400000, max_instrs=900000000) for n in (4095,4096,4097,8191,8192,8200,65535,65536,65537,70000,140000)]+[J("main","VH_repl",1), J("main","VH_repl",2), J("main","VH_repl",3), J("main","VH_replEcho"), J("main","VH_replRepeat",12, max_instrs=30000000), J("main","VH_replRepeat",40, max_instrs=90000000)])
+  quick=[J("main","VH_repl",1), J("main","VH_repl",2), J("main","VH_replEcho"), J("main","VH_replRepeat",12, max_instrs=30000000)]+[J("main","VH_replLong",n, loop_fuel=200000, max_instrs=400000000) for n in (4095,4096,4097,70000)]+[J("main","VH_replDeep",3000,4, loop_fuel=100000, max_instrs=2000000000, max_call_depth=100000)], thorough=[J("main","VH_replDeep",3000,4, loop_fuel=100000, max_instrs=2000000000, max_call_depth=100000), J("main","VH_replDeep",9000,12, loop_fuel=100000, max_instrs=2000000000, max_call_depth=200000)]+[J("main","VH_replLong",n, loop_fuel=400000, max_instrs=900000000) for n in (4095,4096,4097,8191,8192,8200,65535,65536,65537,70000,140000)]+[J("main","VH_repl",1), J("main","VH_repl",2), J("main","VH_repl",3), J("main","VH_replEcho"), J("main","VH_replRepeat",12, max_instrs=30000000), J("main","VH_replRepeat",40, max_instrs=90000000)])
 
 # ---------------- C07: union of panic obligations ----------------
 props["C07"] = dict(title="No program can make the interpreter terminate abnormally",
